@@ -1,5 +1,6 @@
 import OdakModel.Exec.OpsGenState
 import OdakModel.Generated.PropagatorObject
+import OdakModel.Generated.LossObjects
 /-! Driver ops that RUN the object models regenerated from the Python source (work package 13) on abstract tensors - tokens carrying a
     content number, a shape and the elements stored into them - and print, per call, the attributes the step function stored (`x`), the
     attribute objects it wrote in place (`x[]`), and what kind of thing it returned: `V` a value (a new tensor), `N` a new object, `A:x`
@@ -33,7 +34,7 @@ def microDiv (a b : Int) : Int := if b = 0 then 0 else a * 1000000 / b
 
 def propTokOps : PropOps OTok Int :=
   { lit := litMicro, scalar := OTok.leaf, int := fun i => OTok.leaf (i * 1000000), ofBool := fun b => OTok.leaf (if b then 1 else 0),
-    truthy := fun t => t.val != 0, rofInt := fun i => i * 1000000,
+    truthy := fun t => t.val != 0, rofInt := fun i => i * 1000000, rtruthy := fun r => r != 0,
     radd := fun a b => a + b, rsub := fun a b => a - b, rmul := fun a b => a * b / 1000000, rdiv := microDiv, rneg := fun a => -a,
     add := OTok.mix, sub := fun a b => OTok.map1 1 (OTok.mix a b), mul := fun a b => OTok.map1 2 (OTok.mix a b),
     div := fun a b => OTok.map1 3 (OTok.mix a b), neg := OTok.map1 4, powInt := fun a n => OTok.map1 (5 + n) a,
@@ -91,6 +92,70 @@ partial def propRun (x : Array Int) (off n : Nat) (s : PropagatorAttrs OTok Int)
     match propCall x off s h with
     | (none, _) => ("RAISE" :: acc).reverse
     | (some (s', h', t), k) => propRun x (off + k) (n - 1) s' h' (t :: acc)
+
+/-! ### the loss objects -/
+
+def genericTok : (String → Int) × (Int → OTok) := (litMicro, OTok.leaf)
+
+def lossTokOps : LossObjOps OTok Int :=
+  { lit := litMicro, scalar := OTok.leaf, int := fun i => OTok.leaf (i * 1000000), ofBool := fun b => OTok.leaf (if b then 1 else 0),
+    truthy := fun t => t.val != 0, rofInt := fun i => i * 1000000, rtruthy := fun r => r != 0,
+    radd := fun a b => a + b, rsub := fun a b => a - b, rmul := fun a b => a * b / 1000000, rdiv := microDiv, rneg := fun a => -a,
+    add := OTok.mix, sub := fun a b => OTok.map1 1 (OTok.mix a b), mul := fun a b => OTok.map1 2 (OTok.mix a b),
+    div := fun a b => OTok.map1 3 (OTok.mix a b), neg := OTok.map1 4, powInt := fun a n => OTok.map1 (5 + n) a,
+    getIdx := OTok.get, setIdx := OTok.set, dim := fun t k => t.shape.getD k.toNat 0, rank := fun t => t.shape.length,
+    mseLoss := fun r a b => OTok.map1 (20 + r.length) (OTok.mix a b), l1Loss := fun r a b => OTok.map1 (40 + r.length) (OTok.mix a b),
+    sliceTargets := fun d n i => (OTok.map1 (n + 1) d, .mk (i.val * 3 + d.val + n) (n :: i.shape) [], OTok.map1 51 i, .mk (d.val + n + 52) (n :: i.shape) []),
+    defocusTargets := fun b i t n r m mu => (OTok.map1 (b + 60) t, OTok.map1 (b + 61 + mu) (OTok.mix t m)),
+    perceptualLoss := fun bw m rc aw l1 l2 a b c d e f i t p =>
+      OTok.map1 (bw.length + aw.length + l1.length + l2.length + (if rc then 1 else 0) + (match p with | some q => q + 2 | none => 0)) (OTok.mix (OTok.mix i t) m) }
+
+def lossCallArgs (x : Array Int) (off : Nat) : OTok × OTok × Option Int :=
+  (.mk (x.getD (off + 3) 0) [3, 6, 6] [], .mk (x.getD (off + 3) 0 + 1) [3, 6, 6] [], if x.getD (off + 1) 0 != 0 then some (x.getD (off + 2) 0) else none)
+
+partial def mplRun (x : Array Int) (off n : Nat) (s : MultiplaneLossAttrs OTok Int) (h : Heap OTok) (acc : List String) : List String :=
+  if n = 0 then acc.reverse
+  else if x.getD off 0 = 0 then
+    match mplGetTargetsG lossTokOps s h with
+    | none => ("RAISE" :: acc).reverse
+    | some r => mplRun x (off + 1) (n - 1) r.1 r.2.1 ((showLog r.2.2.2 ++ ";V,V,V") :: acc)
+  else
+    let a := lossCallArgs x off
+    match mplCallG lossTokOps s h a.1 a.2.1 a.2.2 with
+    | none => ("RAISE" :: acc).reverse
+    | some r => mplRun x (off + 4) (n - 1) r.1 r.2.1 ((showLog r.2.2.2 ++ ";V") :: acc)
+
+partial def pmplRun (x : Array Int) (off n : Nat) (s : PerceptualMultiplaneLossAttrs OTok Int) (h : Heap OTok) (acc : List String) : List String :=
+  if n = 0 then acc.reverse
+  else if x.getD off 0 = 0 then
+    match pmplGetTargetsG lossTokOps s h with
+    | none => ("RAISE" :: acc).reverse
+    | some r => pmplRun x (off + 1) (n - 1) r.1 r.2.1 ((showLog r.2.2.2 ++ ";V,V,V") :: acc)
+  else
+    let a := lossCallArgs x off
+    match pmplCallG lossTokOps s h a.1 a.2.1 a.2.2 with
+    | none => ("RAISE" :: acc).reverse
+    | some r => pmplRun x (off + 4) (n - 1) r.1 r.2.1 ((showLog r.2.2.2 ++ ";V") :: acc)
+
+def opsGenObjLoss : List (String × Handler) := [
+  -- glo_fields class  ->  the field names of the regenerated structure
+  ("glo_fields", fun a => ",".intercalate (if a.getD 0 0 = 0 then mplFields else pmplFields)),
+  -- glo_seq class defocus planes blur_size psnr n {0 | 1 plane_given plane content}*n  ->  init log | per call: stored attributes ; kinds returned
+  ("glo_seq", fun a => let x := a.toArray
+    let h0 : Heap OTok := ⟨[.mk 601 [3, 6, 6] [], .mk 602 [6, 6] []]⟩
+    let scheme := if x.getD 1 0 != 0 then "defocus" else "naive"
+    let n := (x.getD 5 0).toNat
+    if x.getD 0 0 = 0 then
+      match mplInitG lossTokOps MultiplaneLossAttrs.empty h0 0 1 250000 (x.getD 3 10) (x.getD 2 4) [1000000, 2100000, 600000] 1000000 scheme "mean" () with
+      | none => "RAISE"
+      | some r => "|".intercalate (showLog r.2.2.2 :: mplRun x 6 n r.1 r.2.1 [])
+    else
+      match pmplInitG lossTokOps PerceptualMultiplaneLossAttrs.empty h0 0 1 250000 (x.getD 3 10) (x.getD 2 4) 1000000 scheme
+          [("base_l2_loss", 1000000), ("loss_l2_mask", 1000000), ("loss_l2_cor", 1000000), ("base_l1_loss", 1000000), ("loss_l1_mask", 1000000), ("loss_l1_cor", 1000000)]
+          (if x.getD 4 0 != 0 then [("psnr", 1000000)] else []) "mean" false () with
+      | none => "RAISE"
+      | some r => "|".intercalate (showLog r.2.2.2 :: pmplRun x 6 n r.1 r.2.1 []))
+]
 
 def opsGenObj : List (String × Handler) := [
   -- gpo_fields  ->  the field names of the regenerated structure
